@@ -37,6 +37,8 @@ def build_geo(spec, repo):
             g.atmosphere_type = op[1]
         elif k == 'translate':
             g.translate(list(op[1]))
+        elif k == 'rotate':
+            g.rotate(op[1])
         else:
             raise ValueError('unknown geometry op %r' % (k,))
     return g
@@ -222,6 +224,17 @@ def gen_pair(rng, family, repo, ta=None, tb=None, thorough=False, shipped=None):
         sh = [rng.uniform(-0.3, 0.3) * ex / len(a['base']['rect'][0]), rng.uniform(-0.3, 0.3) * ey / len(a['base']['rect'][1]),
               rng.choice([0., rng.uniform(-0.3, 0.3) * ez / len(a['base']['rect'][2])])]
         b['ops'].append(['translate', sh])
+    elif family == 'reconvention':
+        # the same grid (possibly shifted a little) under a DIFFERENT naming convention: layer and column
+        # names, incl. the atmosphere layer's (' 0' / 'atm' / 'at'), differ between source and target
+        a = rect_spec(rng, atm=ta)
+        if len(a['base']['rect'][0]) * len(a['base']['rect'][1]) > 24:
+            a = rect_spec(rng, atm=ta, nx=rng.randint(1, 6), ny=rng.randint(1, 4))
+        b = copy.deepcopy(a); b['base']['atmos_type'] = tb
+        b['base']['convention'] = rng.choice([c for c in range(4) if c != a['base']['convention']])
+        if rng.random() < 0.5:
+            ex = sum(a['base']['rect'][0]) / len(a['base']['rect'][0]); ey = sum(a['base']['rect'][1]) / len(a['base']['rect'][1])
+            b['ops'].append(['translate', [rng.uniform(-0.2, 0.2) * ex, rng.uniform(-0.2, 0.2) * ey, 0.]])
     elif family == 'surface':
         a = rect_spec(rng, atm=ta, nz=rng.randint(2, 7))
         if rng.random() < 0.5:
@@ -253,5 +266,38 @@ def gen_pair(rng, family, repo, ta=None, tb=None, thorough=False, shipped=None):
     return family, a, b
 
 
+# 12 entries: pair i takes family i % 12 and atmosphere combination (i // 12 + i) % 9, so that every family
+# meets all nine (source, target) atmosphere arrangements within 9 rounds (13 is coprime to 9)
 FAMILIES = ['rect', 'coarse-fine', 'refine', 'refine-rev', 'layer-refine', 'shift', 'surface', 'surface',
-            'identical', 'shipped-self', 'shipped-rect']
+            'identical', 'shipped-self', 'shipped-rect', 'reconvention']
+
+
+def moves(rng, g):
+    """in-place edits of an existing geometry object (after mappings have been computed from it):
+    a shift of about one column, a rotation, new column surfaces."""
+    (x0, y0), (x1, y1) = g.bounds
+    n = max(1, int(round(g.num_columns ** 0.5)))
+    w = max(float(x1 - x0), float(y1 - y0)) / n
+    out = [['translate', [rng.choice([-1, 1]) * rng.uniform(0.8, 1.6) * w, rng.choice([-1, 1]) * rng.uniform(0.8, 1.6) * w, 0.]],
+           ['rotate', rng.choice([90., 180., rng.uniform(20., 70.)])]]
+    bottoms = [float(l.bottom) for l in g.layerlist[1:]]
+    if len(bottoms) > 1:
+        names = [c.name for c in g.columnlist]
+        out.append(['surface', {nm: rng.choice(bottoms[:-1]) for nm in rng.sample(names, max(1, len(names) // 2))}])
+    return out
+
+
+def apply_ops(g, ops):
+    """apply geometry ops to an EXISTING object (same code path as build_geo's op loop)."""
+    for op in ops:
+        k = op[0]
+        if k == 'translate': g.translate(list(op[1]))
+        elif k == 'rotate': g.rotate(op[1])
+        elif k == 'surface':
+            for name, z in op[1].items():
+                col = g.column[name]
+                col.surface = z
+                g.set_column_num_layers(col)
+            g.setup_block_name_index(); g.setup_block_connection_name_index()
+        else: raise ValueError('unknown in-place op %r' % (k,))
+    return g
